@@ -576,7 +576,17 @@ def deposit_settlement(chk, it, n, mode='func', backing=False):
                   chk.obligation('FUNC/request-%d-receives-liquidity-tokens-of-its-pool/%s' % (i, name), pcs,
                                  z3.And(p0, val_eq(cd0.fields[2], liq), val_eq(cd0.fields[0], o0.fields[0]), val_eq(cd0.fields[3], o0.fields[3]),
                                         c0.fields[1].fields[0] == h), inputs, replay=rp, arith='int')
-                  chk.obligation('FUNC/request-%d-gets-its-pro-rata-share-rounded-down/%s' % (i, name), pcs + [total_mt != 0],
+                  # lemma chaining: what the pool-update obligation above has just proven for this path (the totals handed to
+                  # PoolState::deposit are the sums of the requests) is assumed here; with one request the share is the whole, which
+                  # is a bit-vector fact of its own -- without these two steps the non-linear query is decided in 5 s or not within
+                  # its budget, depending on the run
+                  lem = pcs + [I(c['dl']) == tl, I(c['dr']) == tr]
+                  if n == 1:
+                      whole = chk.obligation('LEMMA/a-single-request-is-the-whole-batch/%s' % name, lem, total_mt == my, inputs, replay=rp,
+                                             bound='isqrt(l)*isqrt(r) of the one request equals that of the totals')
+                      if whole:
+                          lem = lem + [total_mt == my]
+                  chk.obligation('FUNC/request-%d-gets-its-pro-rata-share-rounded-down/%s' % (i, name), lem + [total_mt != 0],
                                  z3.And(a0 * I(total_mt) <= I(minted) * I(my), z3.Implies(a0 < MAXU, (a0 + 1) * I(total_mt) > I(minted) * I(my))),
                                  inputs, replay=rp, arith='int',
                                  bound='floor(minted liquidity * isqrt(l)*isqrt(r) / (isqrt(sum l)*isqrt(sum r)))')
